@@ -2,6 +2,8 @@ package main
 
 import (
 	"fmt"
+	"go/ast"
+	"os"
 	"go/token"
 	"math/big"
 	"go/types"
@@ -844,11 +846,22 @@ func (e *fnEnc) analyzeCFG() {
 		}
 	}
 	// loop positions: position of the first instruction with a position in header or its If
+	// (accesses to parameters and named results carry the position of their
+	// declaration in the signature: positions before the body are ignored)
+	bodyStart := token.NoPos
+	switch sx := fn.Syntax().(type) {
+	case *ast.FuncDecl:
+		if sx.Body != nil {
+			bodyStart = sx.Body.Lbrace
+		}
+	case *ast.FuncLit:
+		bodyStart = sx.Body.Lbrace
+	}
 	for _, li := range e.loops {
 		li.pos = token.NoPos
 		for b := range li.body {
 			for _, in := range b.Instrs {
-				if p := in.Pos(); p.IsValid() && (li.pos == token.NoPos || p < li.pos) {
+				if p := in.Pos(); p.IsValid() && p >= bodyStart && (li.pos == token.NoPos || p < li.pos) {
 					li.pos = p
 				}
 			}
@@ -862,6 +875,9 @@ func (e *fnEnc) analyzeCFG() {
 	})
 	for i, li := range e.loops {
 		li.ord = i
+		if os.Getenv("GOVC_DEBUG_LOOPS") != "" {
+			fmt.Fprintf(os.Stderr, "loop %d of %s: header block %d at %s\n", i, e.name, li.header.Index, e.eng.prog.Fset.Position(li.pos))
+		}
 	}
 	// topological order ignoring back edges; check reducibility (every retreating edge is a back edge)
 	visited := map[*ssa.BasicBlock]int{}
